@@ -2283,6 +2283,12 @@ impl<'a> CompilerState<'a> {
                     self.included_assembler
                         .push((str.into(), filename, codesize, bank));
                 }
+                Rule::func_vec_decl => {
+                    return Err(self.syntax_error(
+                        "Tables of function pointers are not implemented",
+                        pair.as_span().start(),
+                    ));
+                }
                 _ => {
                     debug!("What's this ? {:?}", pair);
                     unreachable!()
